@@ -26,6 +26,12 @@ func C01Cells() []cells.Cell {
 	cs = append(cs, cells.SecurityCells()...)
 	cs = append(cs, cells.RespSetCells()...)
 	cs = append(cs, cells.RefOrderCells()...)
+	// responses shared between operations and statuses, through aliases, headers shared between responses
+	for _, c := range respCells("quick") {
+		if c.Attrs["fam"] == "respshare" {
+			cs = append(cs, c)
+		}
+	}
 	return cs
 }
 
